@@ -31,6 +31,18 @@ type skewDesc struct {
 	// InSub: everything between the start and the end events sits inside 1..2
 	// nested embedded sub-processes
 	InSub int `json:"inSub,omitempty"`
+	// ForeignDefs: the instance is created with bpmn.NewProcess(element,
+	// definitions) and a definitions value that is not the element's document
+	ForeignDefs bool `json:"foreignDefs,omitempty"`
+}
+
+func skewHooks(d skewDesc) *drive.Hooks {
+	if !d.ForeignDefs {
+		return nil
+	}
+	return &drive.Hooks{NewInst: func(xml string, vars map[string]any) (*drive.Inst, error) {
+		return drive.New(xml, drive.Options{Vars: vars, ForeignDefs: true})
+	}}
 }
 
 func buildSkew(d skewDesc) (*gen.Graph, string) {
@@ -91,7 +103,7 @@ func TestC03Skew(t *testing.T) {
 		}
 		g, _ := buildSkew(rd)
 		c := &drive.Case{Graph: g, Lang: "expr", Vars: map[string]any{}, Answers: map[string][]model.Answer{}, Schedule: rd.Schedule, Perturb: rd.Perturb, Rank: skewRank(g)}
-		out := drive.RunLockstep(c, nil, nil)
+		out := drive.RunLockstep(c, nil, skewHooks(rd))
 		if out.Symptom != "" {
 			fmt.Printf("REPRODUCED %s: %s\n", out.Symptom, out.Detail)
 			t.Fatalf("%s", out.Symptom)
@@ -99,7 +111,8 @@ func TestC03Skew(t *testing.T) {
 		return
 	}
 	rapid.Check(t, func(rt *rapid.T) {
-		d := skewDesc{M: rapid.IntRange(1, 3).Draw(rt, "m"), Perturb: uint64(rapid.IntRange(0, 200).Draw(rt, "perturb")), InSub: rapid.SampledFrom([]int{0, 0, 1, 2}).Draw(rt, "inSub")}
+		d := skewDesc{M: rapid.IntRange(1, 3).Draw(rt, "m"), Perturb: uint64(rapid.IntRange(0, 200).Draw(rt, "perturb")), InSub: rapid.SampledFrom([]int{0, 0, 1, 2}).Draw(rt, "inSub"),
+			ForeignDefs: rapid.IntRange(0, 3).Draw(rt, "foreignDefs") == 0}
 		n := rapid.IntRange(2, 3).Draw(rt, "n")
 		equal := rapid.IntRange(0, 3).Draw(rt, "equal") > 0
 		// a quarter of the cases queue many tokens (up to 9) per incoming flow
@@ -134,7 +147,7 @@ func TestC03Skew(t *testing.T) {
 		}
 		hash := rec.Hash(d)
 		rec.Begin("TestC03Skew", hash, d)
-		out := drive.RunLockstep(c, pick, nil)
+		out := drive.RunLockstep(c, pick, skewHooks(d))
 		d.Schedule = c.Schedule
 		if out.Inconcl != "" {
 			rec.End(hash, "inconclusive")
